@@ -116,6 +116,51 @@ def main(chk):
                          f'for per-iteration shape {shape}', case)
   chk.sample({'spec': 'Partition', 'axis_case': res['exports'][len(res['exports']) // 2]})
 
+  # ---------------------------------------------------------------- axis cases, the legacy flax.linen.partitioning API
+  from flax.linen import partitioning as lp
+  for idx, case in enumerate(res['exports']):
+    cfg = case['cfg']
+    if cfg['outer'] != 'none':
+      continue
+    shape = tuple(cfg['v']['shape'])
+    names = tuple(nm(x) for x in cfg['v']['names'])
+    if len(names) != len(shape):
+      continue
+    k1 = cfg['k1']
+    for use_neg in (False, True):
+      a1 = neg(k1, len(shape), use_neg)
+      for tr in ('scan', 'vmap'):
+        key = f"C19:legacy-partitioning:{tr}_with_axes:shape={shape}:names={names}:axis={a1}"
+
+        class LBody(nn.Module):
+          @nn.compact
+          def __call__(self, c, x):
+            w = lp.param_with_axes('w', lambda k, s: jnp.ones(s), shape, axes=names)
+            return c, x + w.sum()
+        try:
+          if tr == 'scan':
+            T = lp.scan_with_axes(LBody, variable_axes={'params': a1}, split_rngs={'params': True}, length=5, axis_name='layers', in_axes=nn.broadcast)
+          else:
+            T = lp.vmap_with_axes(LBody, variable_axes={'params': a1}, split_rngs={'params': True}, axis_size=5, in_axes=(None, None), out_axes=(None, 0),
+                                  partitioning_axis_names={'params': 'layers'})
+          variables = T().init(jax.random.key(0), jnp.zeros(()), jnp.zeros(()))
+          got_shape = tuple(variables['params']['w'].shape)
+          got_names = tuple(variables['params_axes']['w_axes'].names)
+          spec = tuple(lp.get_axis_names(variables['params_axes'])['w'])
+        except Exception as e:
+          chk.violation(key, f'init raised {type(e).__name__}: {str(e)[:200]}', case)
+          continue
+        chk.count(key)
+        want_names = tuple(nm(x) for x in case['full']['names'])
+        want_shape = tuple(case['full']['shape'])
+        if got_shape != want_shape or got_names != want_names or spec != want_names:
+          chk.violation(key, f'names {got_names} (get_axis_names {spec}) for value shape {got_shape}; specification {want_names} / {want_shape}', case)
+          continue
+        try:
+          T().apply(variables, jnp.zeros(()), jnp.zeros(()))
+        except Exception as e:
+          chk.violation(key, f'apply on the initialised variables raised {type(e).__name__}: {str(e)[:200]} (the name is removed again when slicing)', case)
+
   # ---------------------------------------------------------------- axis cases, NNX
   class M(nnx.Module):
     def __init__(self, shape, names):
